@@ -33,6 +33,6 @@ For each change k in 1,2 create {wt}/SEED/k/ containing:
   - a demonstration: a Go test file (say where to copy it) or a small Go program, plus run.sh, which FAILS (non-zero exit) with the patch applied and PASSES without it;
   - notes.md : which part of the property it breaks, what it needs in order to manifest, and the exact commands you ran with their outcomes (build, full test suite with the patch, demo with and without).
 
-Environment: no network. In every shell call first run: export GOFLAGS=-mod=mod GOPROXY=off GOSUMDB=off GOTOOLCHAIN=local ; and use the `go1.26` binary, not `go`. If a demo needs generated parser code, the generator binary is `go1.26 run ./cmd/textmapper generate` (see README / regen.sh); keep any scratch module inside {wt}/SEED/.
+Environment: no network. In every shell call first run: export GOFLAGS=-mod=mod GOPROXY=off GOSUMDB=off GOTOOLCHAIN=local ; and use the `go1.26` binary, not `go`. If a demo needs generated parser code, the generator binary is `go1.26 run ./cmd/textmapper generate` (see README / regen.sh); keep any scratch module inside {wt}/SEED/. Do NOT use `git stash` (the stash is shared between worktrees and other people work in sibling worktrees); to compare with and without your change use `git diff > file`, `git apply -R file`, `git apply file`.
 Verify (b), (c) and the demo yourself before finishing. At the end restore the worktree's tracked files (git -C {wt} checkout -- .) and remove untracked files other than SEED/. If you cannot find a second change meeting all of (a)-(d), deliver one and say so.
 Your final message: a short summary per change (files touched, what manifests it).""")
